@@ -36,7 +36,7 @@ MANIFEST = {
 ALPHA = ['a', ' ', ';', ',', '"', '\\', '=', 'ü', '€']
 NAMES = ['n', 'a-b', 'N1']
 SECRETS = ['s', 'other', 'ü']
-SIGNED = [('t', 1), {'k': [1, 2, {'z': None}]}, 'text', None, b'by\x00tes', 0, '']
+SIGNED = [('t', 1), {'k': [1, 2, {'z': None}]}, 'text', None, b'by\x00tes', 0, '', '!looks?signed', '!?']
 B64 = 'ABCDEFGHIJKLMNOPQRSTUVWXYZabcdefghijklmnopqrstuvwxyz0123456789+/'
 SUBST = B64 + '!?='
 MISSING = '<<absent>>'
@@ -115,6 +115,8 @@ def emit_cookie(om, name, value, secret, via_redirect=False):
 
     def h():
         try:
+            if via_redirect in ('status204', 'status304'):
+                app.response.status = int(via_redirect[6:])           # a cookie is not an entity header: it goes out with 204 / 304 too
             if via_redirect == 'twice':
                 # the same name set before with another value (and deleted in between): the last one counts
                 app.response.set_cookie(name, 'first', path='/')
@@ -131,7 +133,8 @@ def emit_cookie(om, name, value, secret, via_redirect=False):
     if err:
         return None, 'set_cookie raised ' + err['e']
     sc = c.headers_all('Set-Cookie')
-    if c.code != (303 if via_redirect is True else 200) or len(sc) != 1:
+    want_code = 303 if via_redirect is True else (int(via_redirect[6:]) if via_redirect in ('status204', 'status304') else 200)
+    if c.code != want_code or len(sc) != 1:
         return None, f'status {c.status}, {len(sc)} Set-Cookie headers'
     return cookie_pair(sc[0]), None
 
@@ -240,7 +243,7 @@ def work(spec):
                 case = {'kind': 'plain', 'name': name, 'value': v}
                 core.track(res, case)
                 res['states'] += 1
-                via = [False, True, 'reused', 'twice', True, 'reused-raise'][i % 6]
+                via = [False, True, 'reused', 'twice', True, 'reused-raise', 'status204', 'status304'][i % 8]
                 case['redirect'] = via
                 pair, err = emit_cookie(om, name, v, None, via)
                 if err:
@@ -323,7 +326,7 @@ def work(spec):
             if err_r or got_r != value:
                 core.add_violation(res, dict(case0, redirect=True), f'signed cookie {name}={value!r} set before redirect(): sent back as {pair_r!r} reads {got_r!r}',
                                    sig='signed:roundtrip-redirect')
-            for mode in ('reused', 'reused-raise', 'twice'):
+            for mode in ('reused', 'reused-raise', 'twice', 'status204', 'status304'):
                 pair_o, err_o = emit_cookie(om, name, value, secret, mode)
                 got_o = read_wsgi(om, pair_o, name, secret) if not err_o else err_o
                 c['via_reused_object'] += 1
@@ -458,7 +461,7 @@ def replay(case):
                         f'{v2!r} (a fresh request reads {got!r}); after a read and del request["HTTP_COOKIE"] it reads {v3!r}')
             if got == case['value'] or case['value'] == '':
                 return None
-            return (f'response.set_cookie({case["name"]!r}, {case["value"]!r}){" followed by redirect()" if case.get("redirect") is True else (" on a prepared HTTPResponse object that is " + ("raised" if case.get("redirect") == "reused-raise" else "returned") + " for two requests (second answer)" if case.get("redirect") in ("reused", "reused-raise") else (" after the same name was set to another value and deleted on the same response" if case.get("redirect") == "twice" else ""))} emits {pair!r}; sent back as the Cookie header, '
+            return (f'response.set_cookie({case["name"]!r}, {case["value"]!r}){" followed by redirect()" if case.get("redirect") is True else (" on a prepared HTTPResponse object that is " + ("raised" if case.get("redirect") == "reused-raise" else "returned") + " for two requests (second answer)" if case.get("redirect") in ("reused", "reused-raise") else (" after the same name was set to another value and deleted on the same response" if case.get("redirect") == "twice" else (" on a response with status " + str(case.get("redirect"))[6:] if str(case.get("redirect")).startswith("status") else "")))} emits {pair!r}; sent back as the Cookie header, '
                     f'request.get_cookie reads {got!r}')
         if case['kind'] == 'swap':
             proxy.armed = True
